@@ -220,6 +220,7 @@ Fixpoint monitor_from (m : mstate) (ops : list op) (bs : list obs) : bool :=
           let '(b1, m1) := m_cbs m l in
           b1 && nodupb (map rec_key l) && monitor_from m1 r br
       | OSvc, BUnit => monitor_from m r br
+      | OCreateNs d rep _ p, BUnit => monitor_from (m_create m d rep p) r br
       (* a released loop: whatever it ran, every single callback must be allowed (on the owner,
          not cancelled, a one-shot for the first time ...) *)
       | (OStart | ORun), BRan l =>
